@@ -38,7 +38,7 @@ def register(reg):
             _stream_transport_map_lock='ref:rlock', _reader_lock='ref:lock', _open_lock='ref:lock', _last_id_used='int',
             systemtype='str', serial='str', banner='str')
   reg.shape('AdbStream', _destination='str', _transport='ref:AdbStreamTransport')
-  reg.shape('queue', items='own:list', head='int')
+  reg.shape('queue', items='own:list[ref:AdbMessage]', head='int')
   meta = {
       'not_decided': ['everything quantified over thread schedules (no deadlock, no lost wake-up, blocked reads returning by their timeout): '
                       'AdbStreamTransport._read_messages_until_true is not under contract; AdbConnection.read_for_stream is verified for one '
@@ -88,6 +88,8 @@ def register(reg):
   c.returns('str').modifies().function_of('self._command')
   c.requires('known_command', ' or '.join("self._command == wire_command('%s')" % n for n in NAMES))
   c.ensures('inverse_of_the_wire_table', 'wire_command(result) == self._command and (%s)' % ' or '.join("result == '%s'" % n for n in NAMES))
+  # the same fact pointwise (the seven wire ids are distinct constants), so that no string reasoning is needed to move between the two forms
+  c.ensures('inverse_of_the_wire_table_pointwise', ' and '.join("(self._command == wire_command('%s')) == (result == '%s')" % (n, n) for n in NAMES))
   c.trusted('WIRE_TO_CMD is the inverse of CMD_TO_WIRE (both built by make_wire_commands at import time)')
 
   for qual in ('AdbMessage.__str__', 'AdbStreamTransport.__str__', 'AdbStream.__str__'):
@@ -115,9 +117,22 @@ IDS = ('0 < self.local_id and self.local_id < 2**16 and (self.remote_id is None 
        '0 <= self.adb_connection.maxdata and self.adb_connection.maxdata < 2**32')
 
 
+# every message waiting in a stream's queue is an intact stream packet (what enqueue_message put there)
+def queued_ok(q):
+  m = '%s.items[j]' % q
+  return ('forall_int(lambda j: implies({q}.head <= j and j < len({q}.items), ({cmds}) and 0 <= {m}.arg0 and {m}.arg0 < 2**32 and 0 <= {m}.arg1 and {m}.arg1 < 2**32 '
+          'and implies({m}._command == wire_command(\'OKAY\'), {m}.arg0 != 0)))').format(
+              q=q, m=m, cmds=' or '.join("%s._command == wire_command('%s')" % (m, n) for n in ('OKAY', 'CLSE', 'WRTE')))
+
+
 WF_MAP = ('forall_key(lambda k: implies(k in {m}, {m}[k].local_id == k and {m}[k].adb_connection is self and 0 < k and k < 2**16 and '
           '({m}[k].remote_id is None or (0 <= {m}[k].remote_id and {m}[k].remote_id < 2**32)) and '
           'implies(not {m}[k].remote_id, {m}[k].closed_state is {cs}.PENDING)))').format(m='self._stream_transport_map', cs=CS)
+
+
+# every registered stream has a well-formed queue holding intact stream packets
+QUEUES_OK = ('forall_key(lambda k: implies(k in {m}, 0 <= {m}[k].message_queue.head and {m}[k].message_queue.head <= len({m}[k].message_queue.items) and {qok}))'
+             .format(m='self._stream_transport_map', qok=queued_ok('self._stream_transport_map[k].message_queue')))
 
 
 def register_stream_transport(reg):
@@ -140,8 +155,13 @@ def register_stream_transport(reg):
   c.requires('valid_message', VALID_MSG).requires('ids', IDS)
   c.requires('a_stream_without_remote_id_is_pending', 'implies(not self.remote_id, self.closed_state is %s.PENDING)' % CS)
   c.requires('buffer_accounting', 'self._buffer_size >= 0')
+  c.requires('a_READY_packet_names_a_non_zero_remote_id', NONZERO_READY)
   c.ensures('OKAY_acknowledges_the_outstanding_WRTE', "implies(message.command == 'OKAY', old(self._expecting_okay) and not self._expecting_okay)")
   c.ensures('CLSE_closes', "implies(message.command == 'CLSE', self.closed_state is %s.CLOSED)" % CS)
+  c.ensures('the_first_OKAY_opens_the_stream_with_the_devices_id',
+            "implies(message.command == 'OKAY' and not old(self.remote_id), self.remote_id == message.arg0 and self.closed_state is %s.OPEN)" % CS)
+  c.ensures('nothing_but_an_OKAY_opens_a_stream', "implies(message.command != 'OKAY', self.closed_state is not %s.OPEN or old(self.closed_state is %s.OPEN))" % (CS, CS))
+  c.ensures('ids_stay_well_formed', IDS + ' and implies(not self.remote_id, self.closed_state is %s.PENDING or self.closed_state is %s.CLOSED)' % (CS, CS))
   c.ensures('WRTE_data_is_buffered_exactly_once_in_order',
             "implies(message.command == 'WRTE', handle_wrte and len(self._read_buffer) == old(len(self._read_buffer)) + 1 and "
             "self._read_buffer[len(self._read_buffer) - 1] == message.data and self._buffer_size == old(self._buffer_size) + len(message.data) and "
@@ -175,6 +195,7 @@ def register_stream_transport(reg):
   c.requires('valid_message', VALID_MSG).requires('ids', IDS)
   c.requires('a_stream_without_remote_id_is_pending', 'implies(not self.remote_id, self.closed_state is %s.PENDING)' % CS)
   c.requires('a_READY_packet_names_a_non_zero_remote_id', NONZERO_READY)
+  c.ensures('queued_messages_stay_intact_stream_packets', 'implies(old(%s), %s)' % (queued_ok('self.message_queue'), queued_ok('self.message_queue')))
   q = 'self.message_queue.items'
   c.ensures('queued_exactly_once_at_the_end', 'len({q}) == old(len({q})) + 1 and {q}[len({q}) - 1] is message and '
             'forall_int(lambda j: implies(0 <= j and j < old(len({q})), same({q}[j], old(content({q}))[j])))'.format(q=q))
@@ -234,6 +255,9 @@ def register_connection(reg):
              'implies(not {m}[k].remote_id, {m}[k].closed_state is {cs}.PENDING)))'.format(m=smap, cs=CS))
   c.requires('this_stream_belongs_to_this_connection', 'stream_transport.adb_connection is self')
   c.requires('a_READY_packet_names_a_non_zero_remote_id', NONZERO_READY)
+  c.requires('the_waiting_streams_queue', '0 <= stream_transport.message_queue.head and stream_transport.message_queue.head <= len(stream_transport.message_queue.items) and '
+             + queued_ok('stream_transport.message_queue'))
+  c.ensures('the_waiting_streams_queue_holds_intact_stream_packets', queued_ok('stream_transport.message_queue'))
   illegal = "not (message.command == 'OKAY' or message.command == 'CLSE' or message.command == 'WRTE')"
   mine = 'message.arg1 == stream_transport.local_id'
   c.raises('AdbProtocolError', when="(%s) or (%s and message.command == 'WRTE' and not stream_transport.remote_id) or "
@@ -466,6 +490,13 @@ def register_reader(reg):
   qwf = '0 <= {q}.head and {q}.head <= len({q}.items)'.format(q=q)
   belongs = 'stream_transport.adb_connection is self'
   c.requires('ids', ids).requires('queue', qwf).requires('registered_streams_are_well_formed', WF_MAP).requires('this_stream_belongs_to_this_connection', belongs)
+  c.requires('queued_messages_are_intact_stream_packets', queued_ok(q))
+  c.ensures('queued_messages_are_intact_stream_packets', queued_ok(q))
+  c.ensures('registered_streams_stay_well_formed', WF_MAP).ensures('ids', ids)
+  c.ensures('the_result_is_an_intact_stream_packet',
+            "(result._command == wire_command('OKAY') or result._command == wire_command('CLSE') or result._command == wire_command('WRTE')) and "
+            "0 <= result.arg0 and result.arg0 < 2**32 and "
+            "0 <= result.arg1 and result.arg1 < 2**32 and " + NONZERO_READY.replace('message.', 'result.'))
   nonempty0 = 'old({q}.head < len({q}.items))'.format(q=q)
   c.ensures('queued_messages_are_delivered_first_and_in_order',
             'implies({ne}, result is old(content({q}.items))[old({q}.head)] and {q}.head == old({q}.head) + 1)'.format(ne=nonempty0, q=q))
@@ -486,7 +517,7 @@ def register_reader(reg):
          ('nothing_taken_so_far', '{q}.head == old({q}.head)'.format(q=q)),
          ('what_was_queued_stays_queued', 'len({q}.items) >= old(len({q}.items)) and forall_int(lambda j: implies(0 <= j and j < old(len({q}.items)), '
           'same({q}.items[j], old(content({q}.items))[j])))'.format(q=q)),
-         ('message_log', "ghost('tx.n') >= 0")]
+         ('message_log', "ghost('tx.n') >= 0"), ('queued_messages_are_intact_stream_packets', queued_ok(q))]
   c.loop('while not timeout.has_expired() and stream_transport.local_id in self._stream_transport_map', inv=inv, modifies=mods,
          vars={'timeout': 'ref:PolledTimeout'})
   c.loop('while not timeout.has_expired()', inv=inv, modifies=mods,
